@@ -478,8 +478,10 @@ partial def loop (h : IO.FS.Stream) (out : IO.FS.Stream) (st : DState) : IO Unit
       let parsedAll := real.all (·.isSome)
       let nMarked := (env.filter fun it => marked it && (sub.find? (·.name = it.name)).isSome).length
       let wsd := wsdB D
-      let unf := parsedAll && declsUnfB D 40 D D'
-      let bad := ((D.zip D').filter fun (a, b) => !(a.1 == b.1 && a.2.1 == b.2.1 && unfB D 40 a.2.2 b.2.2)).map fun (a, _) => S a.1
+      -- fuel: one unit per list element and per level (sound for ANY fuel, `declsUnfB_sound`); wide enough for the widest tuple written
+      let uf := 40 + (decls.map (·.length)).foldl max 0
+      let unf := parsedAll && declsUnfB D uf D D'
+      let bad := ((D.zip D').filter fun (a, b) => !(a.1 == b.1 && a.2.1 == b.2.1 && unfB D uf a.2.2 b.2.2)).map fun (a, _) => S a.1
       out.putStrLn (Json.mkObj [("frag", Json.bool frag), ("sub", Json.num sub.length), ("marked", Json.num nMarked), ("wsd", Json.bool wsd),
         ("parsed", Json.bool parsedAll), ("unf", Json.bool unf), ("bad", Json.arr bad.toArray)]).compress
       loop h out st
